@@ -757,7 +757,12 @@ func c17EnumerateTCP(sh *evidence.Shard) {
 					}
 					if len(cuts) == 0 && end == c17EndEOF && t.ExpHost != "" && !t.Either && r.clauseID == "" && !r.rewrote {
 						// non-vacuity: the complete, unsplit, undelayed template must be recognised
-						sh.InfraError("template %s: the complete stream was not recognised by the sniffer (consumed %d of %d bytes, need %d): the destination clause would be vacuous", t.Name, r.pos, n, t.NeedLen)
+						// (a harness expectation, not a property clause: a sniffer may recognise less)
+						p.Count("templates_not_recognised_by_the_sniffer", 1)
+						if p.Exhaustive {
+							p.Exhaustive = false
+							p.Note("template %s: the complete, unsplit stream was not recognised by the sniffer (consumed %d of %d bytes, need %d): the destination clause is vacuous for it on this tree", t.Name, r.pos, n, t.NeedLen)
+						}
 					}
 					if item%5003 == 7 && end == c17EndBlock {
 						cs := c
